@@ -216,8 +216,6 @@ def classify(lang, diag, t, alltypes, omit, as_cxx=False, macros=None):
         hit = [n for n in dsdl_names(t) if re.search(r"\b%s\b" % re.escape(n), diag.get("src", ""))]
         if hit and any(n in macros() for n in hit):
             return "cpp-name-spelling-a-standard-library-macro"
-    if lang == "cpp" and t.deprecated and "deprecated" in opt + msg and t.short_name in msg:
-        return "cpp-deprecated-type-warns-on-itself"
     if lang == "c" and as_cxx and opt == "-Wnested-anon-types" and has_union_with_varray(t):
         return "c-union-with-variable-array-in-pedantic-cxx-tu"
     if lang in ("cpp", "c") and opt in ("-Wcomment", "-Wtrigraphs") and any(("\\" in d or "??/" in d) for d in doc_texts(t)):
